@@ -22,7 +22,7 @@ def arr_sig(a):
             content = np.ascontiguousarray(a).tobytes()
     except Exception as exc:  # pragma: no cover - exotic dtypes
         content = repr(exc).encode()
-    return ("nd", a.dtype.str, tuple(a.shape), tuple(a.strides), _h(content))
+    return ("nd", a.dtype.str, tuple(a.shape), tuple(a.strides), _h(content), bool(a.flags.writeable))
 
 
 def snap(obj, depth=0, memo=None):
